@@ -107,6 +107,7 @@ let print_sout (so : sout) =
     pr "open %d %d %d\n" (int_of_z i) (int_of_z buf) (List.length pts);
     List.iter print_point pts
   | SNoDrv i -> pr "nodrv %d\n" (int_of_z i)
+  | SInErr (i, c) -> pr "ierr %d %d\n" (int_of_z i) (int_of_z c)
 
 (* temperature needs the descriptor's resolution: handled where the driver is known *)
 let temp_line i (d : desc) (t : z option) =
@@ -159,18 +160,23 @@ let kernel toks =
   | ["create_ymd"; tz; us] -> pr "k create_ymd %s\n" (hex_of_bytes (create_ymd (zi tz) (zi us)))
   | ["crc"; hex] -> pr "k crc %s\n" (z_to_string (crc_calc g_crc_table (bytes_of_hex hex) Z0 true))
   | ["crcok"; hex] -> pr "k crcok %d\n" (bi (crc_ok g_crc_table (bytes_of_hex hex)))
+  | ["bpf"; vlan; port; hex] ->
+    let p = if port = "-1" then None else Some (zi port) in
+    pr "k bpf %d\n" (bi (bpf_udp (bool_of vlan) p (bytes_of_hex hex)))
+  | ["bpf"; vlan; port] -> pr "k bpf %d\n" (bi (bpf_udp (bool_of vlan) (if port = "-1" then None else Some (zi port)) []))
   | ["direct"; _; _; hex] -> pr "k direct %d\n" (List.length (String.split_on_char ',' hex))
   | ["direct"; _; _] -> pr "k direct 1\n"
   | ["overflow"; n] -> pr "k overflow %d\n" (bi (overflow_guard (zi n)))
   | _ -> pr "k ? %s\n" (String.concat " " toks)
 
 (* ---- scenarios ---- *)
-type pending = { mutable cfgs : (int * (desc * dcfg)) list; mutable answers : (int * z option list) list }
+type pending = { mutable cfgs : (int * (desc * dcfg)) list; mutable answers : (int * z option list) list;
+                 mutable inputs : (int * (int * incfg * bool)) list; mutable queued : (int * event) list }
 
 let () =
   let ic = if Array.length Sys.argv > 1 then open_in Sys.argv.(1) else stdin in
   let oc = if Array.length Sys.argv > 2 then open_out Sys.argv.(2) else stdout in
-  let pend = { cfgs = []; answers = [] } in
+  let pend = { cfgs = []; answers = []; inputs = []; queued = [] } in
   let bl = ref { b_crc = false; b_difop_parse = false } in
   let w = ref world0 in
   let descs : (int, desc) Hashtbl.t = Hashtbl.create 8 in
@@ -189,7 +195,7 @@ let () =
         | [] -> ()
         | "S" :: name ->
           pr "S %s\n" (String.concat " " name);
-          pend.cfgs <- []; pend.answers <- []; w := world0; Hashtbl.reset descs;
+          pend.cfgs <- []; pend.answers <- []; pend.inputs <- []; pend.queued <- []; w := world0; Hashtbl.reset descs;
           bl := { b_crc = false; b_difop_parse = false }
         | ["B"; crc; parse] -> bl := { b_crc = bool_of crc; b_difop_parse = bool_of parse }
         | ["D"; i; ty; wait; dense; mode; angle; nblk; minb; maxb; st; en; lclock; tsfirst; pktcb; tz; user; tail] ->
@@ -207,6 +213,37 @@ let () =
           let a = try List.assoc i pend.answers with Not_found -> [] in
           Hashtbl.replace descs i d;
           do_event (EInit (z_of_int i, d, c, a))
+        | ["N"; i; mode; msop; difop; vlan; repeat] ->
+          let i = int_of_string i in
+          let (_, c) = List.assoc i pend.cfgs in
+          let ic = { i_msop_port = z_of_int (int_of_string msop); i_difop_port = z_of_int (int_of_string difop); i_vlan = bool_of vlan;
+                     i_user = c.c_user; i_tail = c.c_tail } in
+          pend.inputs <- (i, (int_of_string mode, ic, bool_of repeat)) :: pend.inputs;
+          do_event (ESetInput (z_of_int i, z_of_int (int_of_string mode), ic))
+        | "F" :: i :: len :: rest ->
+          let data = match rest with [h] -> bytes_of_hex h | _ -> [] in
+          pend.queued <- (int_of_string i, EFrame (z_of_int (int_of_string i), { pf_len = z_of_int (int_of_string len); pf_data = data })) :: pend.queued
+        | "U" :: i :: port :: rest ->
+          let data = match rest with [h] -> bytes_of_hex h | _ -> [] in
+          pend.queued <- (int_of_string i, EDgram (z_of_int (int_of_string i), z_of_int (int_of_string port), data)) :: pend.queued
+        | ["GO"; i] ->
+          let i = int_of_string i in
+          let (mode, _, repeat) = List.assoc i pend.inputs in
+          (if not (Hashtbl.mem descs i) then begin
+             let (d, c) = List.assoc i pend.cfgs in
+             let a = try List.assoc i pend.answers with Not_found -> [] in
+             Hashtbl.replace descs i d;
+             do_event (EInit (z_of_int i, d, c, a));
+             (* EInit resets nothing of the input configuration *)
+           end);
+          let evs = List.rev (List.filter_map (fun (j, e) -> if j = i then Some e else None) pend.queued) in
+          pend.queued <- List.filter (fun (j, _) -> j <> i) pend.queued;
+          List.iter do_event evs;
+          if mode <> 2 then begin
+            if repeat then begin
+              pr "ierr %d 1\n" i; List.iter do_event evs; pr "ierr %d 1\n" i
+            end else do_event (EEof (z_of_int i))
+          end
         | ["W"; t] -> do_event (EWall (z_of_string t))
         | ["H"; t] -> do_event (EHost (z_of_string t))
         | ["P"; i; hex] -> do_event (EPkt (z_of_int (int_of_string i), bytes_of_hex hex))
